@@ -943,4 +943,46 @@ Section Facts.
         rewrite cand_step_adm, Hk, Ha. unfold step_of_adm. rewrite Hm. cbn [negb].
         destruct (Bool.eqb (rws r) ws) eqn:Ew; [apply Bool.eqb_prop in Ew; contradiction|reflexivity].
   Qed.
+
+  (* ------------------------------------------------------------------ the candidates at the root, declaratively *)
+  Definition walkcond (k : ckind) (r : rule) (caps : list str) (P : list str) : Prop :=
+    match k with
+    | KHere => walk (rparts r) P = Some (caps, [])
+    | KLate => walk (rparts r) P = Some (caps, [[]])
+    | KSlash => exists cs', rparts r = cs' ++ [PStatic []] /\ walk cs' P = Some (caps, [])
+    end.
+
+  Theorem root_cand_iff rules P k r caps :
+    In (k, r, caps) (cands (build_trie rules) P []) <-> In r rules /\ walkcond k r caps P.
+  Proof.
+    split.
+    - intro Hin. apply cands_sound in Hin. destruct Hin as (sigma & caps' & Hv & Hst). cbn [app] in Hv. subst caps'.
+      destruct k; destruct Hst as [Hst Hw]; apply stored_build in Hst; destruct Hst as [Hr Hsig]; (split; [exact Hr|]); cbn [walkcond].
+      + subst sigma. exact Hw.
+      + exists sigma. split; [symmetry; exact Hsig|exact Hw].
+      + subst sigma. exact Hw.
+    - intros [Hr Hw]. pose proof (stored_build_conv rules r Hr) as Hst. pose proof (wfk_build rules) as Hwf.
+      destruct k; cbn [walkcond] in Hw.
+      + destruct (cands_complete _ _ _ [] _ _ _ Hwf Hst Hw) as [I1 _]. exact (I1 eq_refl).
+      + destruct Hw as (cs' & Hp & Hw). rewrite Hp in Hst. exact (cands_complete_slash _ _ _ [] _ _ Hwf Hst Hw).
+      + destruct (cands_complete _ _ _ [] _ _ _ Hwf Hst Hw) as [_ I2]. exact (I2 eq_refl).
+  Qed.
+
+  Lemma hit_iff meth ws k r caps :
+    (match cand_step meth ws (k, r, caps) with SFound _ _ | SSlashReq _ => True | _ => False end)
+    <-> cand_adm k r caps <> ANo res /\ method_ok rule rmethods r meth = true /\ rws r = ws.
+  Proof.
+    rewrite cand_step_adm. unfold step_of_adm. destruct (cand_adm k r caps) as [v| |].
+    - destruct (method_ok rule rmethods r meth); cbn [negb].
+      + destruct (Bool.eqb (rws r) ws) eqn:E; cbn [negb].
+        * apply Bool.eqb_prop in E. split; [intros _; repeat split; [discriminate|exact E]|intros _; exact I].
+        * split; [intros []|]. intros (_ & _ & Hw). rewrite Hw, Bool.eqb_reflx in E. discriminate.
+      + split; [intros []|]. intros (_ & H & _). discriminate.
+    - destruct (Bool.eqb ws (rws r)) eqn:E; cbn [andb].
+      + apply Bool.eqb_prop in E. destruct (method_ok rule rmethods r meth).
+        * split; [intros _; repeat split; [discriminate|symmetry; exact E]|intros _; exact I].
+        * split; [intros []|]. intros (_ & H & _). discriminate.
+      + split; [intros []|]. intros (_ & _ & Hw). rewrite Hw, Bool.eqb_reflx in E. discriminate.
+    - split; [intros []|]. intros (H & _). contradiction.
+  Qed.
 End Facts.
